@@ -146,6 +146,7 @@ def collect(ctx, sub="c01", extra=()):
 # streams whose programs carry the output they print BY CONSTRUCTION (namecat.rs, patpos.rs)
 BY_CONSTRUCTION = ("names:", "patpos:")
 GENERATED = ("gen:", "eff:", "wrap:", "nest:", "prog:", "names:", "patpos:")
+GENERATED += ("fld:", "fldwrap:", "fldnest:")  # harness/src/c09/fields.rs
 
 def evaluate(ctx, progs):
     # generated programs are small: they run with a small fuel budget (GV_GEN_FUEL), so that a stage
